@@ -985,8 +985,13 @@ def oracle_trace(ctx, task, dflt, mode, events, snaps, crash):
                   and ev[2] in ('SUCCESS', 'ERROR', 'CANCELLED'))
         crashed_here = crash is not None and idx == len(snaps)
         # --- root causes ------------------------------------------------------------------------------
-        if fired is not None and fired['name'] in ('_continue_task', '_complete_task') and (changed or crashed_here):
-            if pre['state'] != 'DELAYED' or last_change > fired['born']:
+        # a delayed job is stale when the task is no longer in the delay it was scheduled for: the task must still be
+        # DELAYED and untouched since the job was scheduled
+        stale = fired is not None and (
+            (fired['name'] == '_continue_task' and (pre['state'] != 'DELAYED' or last_change > fired['born'])) or
+            (fired['name'] == '_complete_task' and (pre['state'] != 'DELAYED' or last_change > fired['born'])))
+        if stale and (changed or crashed_here):
+            if True:
                 sig = 'stale-continue-job' if fired['name'] == '_continue_task' else 'stale-wait-after-job'
                 cons = []
                 if pre['state'] in COMPLETED:
@@ -1041,7 +1046,7 @@ def oracle_trace(ctx, task, dflt, mode, events, snaps, crash):
         elif is_act and not fo_unknown:
             outcome = 'ERROR' if (ev[2] == 'SUCCESS' and fail_on is True) else ev[2]
             delayed_by_wa = wa > 0 and completions == 1 and not timed_out
-        elif fired is not None and fired['name'] == '_complete_task' and pre['state'] == 'DELAYED' and not fo_unknown:
+        elif fired is not None and fired['name'] == '_complete_task' and not stale and not fo_unknown:
             x = fired['args'].get('state')
             outcome = 'ERROR' if (x == 'SUCCESS' and fail_on is True) else x
             delayed_by_wa = False
